@@ -19,20 +19,29 @@ from ..common import enc, ask
 LEVEL = "proof"
 RULE = ("histories generated from one PRNG: constructor (defaults / explicit ranges) followed by 0-12 operations drawn from "
         "{birth_range=, pers_range=, pixel_size=, fit(single|collection, skew T/F)}; value modes decimal (0.1,0.2,0.3,1/3,0.7 ... "
-        "and ranges n*ps or two-decimal), dyadic (exact float arithmetic, whole history scaled by 2^-20..2^20) and uniform; "
+        "and ranges n*ps or two-decimal), decimal at large offsets (|b0| from 1e3 to 1e6 with the same pixel sizes), dyadic (exact "
+        "float arithmetic, whole history scaled by 2^-20..2^20), uniform, and integer-typed (Python ints for ranges and pixel "
+        "size, int64 arrays for the diagrams); after every operation transform is called on one diagram, an empty (0,2) array, "
+        "[], a collection and a collection with an empty member, and every returned image must have the reported resolution; "
         "ranges that are / are not multiples of the pixel size; a malformed stream (pixel_size 0, reversed ranges, fit on "
         "no data / an empty diagram); non-trivial = at least one operation after the constructor and some range that is not "
         "an exact multiple of the pixel size; distinct by digest of the history")
 ASSUMPTIONS = [
     "coordinates are finite floats; NaN/inf data and non-numeric arguments (constructor type validation) are outside the model",
-    "numeric attributes are compared to 1e-9*scale (scale = largest magnitude in the state); resolutions, mesh lengths and image "
-    "shapes exactly; where the code's float quotient extent/pixel_size differs from the exact quotient and the latter is within "
+    "numeric attributes are compared to 1e-9*scale (scale = largest magnitude in the state), the clauses of the invariant to "
+    "1e-9*(largest extent) + 1e-12*(largest coordinate); resolutions, mesh lengths and image shapes exactly; where the code's float quotient extent/pixel_size differs from the exact quotient and the latter is within "
     "1e-9 of an integer, either neighbouring pixel count is accepted (razor-edge rule, counted) and the comparison continues "
     "from the code's own state (`img.from`)",
     "np.linspace(a, b, n, endpoint=False) = a + i*(b-a)/n; in-place += broadcasting rule of numpy (both exercised on every case)",
 ]
 TOL = 1e-9
 MAXV = 5
+# theorems that carry a clause of the property (of 14 in Props/C12.lean); not listed: helpers / repackagings (driver_ceil_is_ceil,
+# step_inv, run_inv, inv_reachable_inv) and the two decided instances about the pre-fix constructor (ctor_old_counterexample,
+# ctor_new_same_input)
+CORE_THEOREMS = ["PersimVerif.C12." + n for n in (
+    "inv_reachable", "mesh_is_square", "covers_request", "covers_request_ctor", "covers_request_history", "shape_is_resolution",
+    "reachable_image_shape", "reachable_image_shape_history")]
 
 DEFAULTS = {"birth_range": (0.0, 1.0), "pers_range": (0.0, 1.0), "pixel_size": 0.2}
 ERRMAP = {  # model kind -> exception classes the code may raise for it
@@ -48,10 +57,10 @@ def PI():
 
 # ----------------------------------------------------------------------------- the real code
 
-def to_input(kind, data):
+def to_input(kind, data, dtype=float):
     if kind == "s":
-        return np.array(data, dtype=float).reshape(-1, 2)
-    return [np.array(d, dtype=float).reshape(-1, 2) for d in data]
+        return np.array(data, dtype=dtype).reshape(-1, 2)
+    return [np.array(d, dtype=dtype).reshape(-1, 2) for d in data]
 
 
 def construct(c):
@@ -74,7 +83,8 @@ def apply_op(obj, op):
     elif k == "px":
         obj.pixel_size = op[1]
     elif k == "fit":
-        obj.fit(to_input(op[2], op[3]), skew=op[1])
+        # a fifth element "int" = the diagrams are integer-typed arrays (the values are whole numbers)
+        obj.fit(to_input(op[2], op[3], dtype=np.int64 if len(op) > 4 and op[4] == "int" else float), skew=op[1])
     else:
         raise common.HarnessError("unknown op %r" % (op,))
 
@@ -109,6 +119,31 @@ def real_shape(obj):
     return [int(x) for x in np.shape(v)]
 
 
+def extra_shapes(obj):
+    """shapes of what transform returns for the OTHER call styles, each of which must consist of images of the reported
+    resolution: an empty (0,2) array, an empty list, a collection of two diagrams, a collection with an empty member.
+    -> {style: shape | [shape, ...] | 'err:Kind' | 'not a list'}; {} when the grid is too large to bother"""
+    r = obj.resolution
+    if r[0] < 0 or r[1] < 0 or r[0] * r[1] > 250000:
+        return {}
+    out = {}
+    b, p = obj.birth_range, obj.pers_range
+    pt = np.array([[0.5 * (b[0] + b[1]), 0.5 * (p[0] + p[1])]])
+    pt2 = np.array([[b[0], p[1]], [b[1], p[0]]])
+    styles = [("empty_array", np.zeros((0, 2)), False), ("empty_list", [], False)]
+    if r[0] * r[1] <= 40000:
+        styles += [("collection", [pt, pt2], True), ("collection_with_empty_member", [pt, np.zeros((0, 2)), pt2], True)]
+    for name, arg, is_coll in styles:
+        st, v, _ = common.call(obj.transform, arg, skew=False)
+        if st == "err":
+            out[name] = "err:" + v
+        elif is_coll:
+            out[name] = [[int(x) for x in np.shape(a)] for a in v] if isinstance(v, list) and len(v) == len(arg) else "not a list of %d images" % len(arg)
+        else:
+            out[name] = [int(x) for x in np.shape(v)] if isinstance(v, np.ndarray) else "not an array"
+    return out
+
+
 def data_hull(op):
     """(minB, maxB, minP, maxP) of a fit's data as the code computes them (float skew), or None without data"""
     ds = [np.array(op[3], dtype=float).reshape(-1, 2)] if op[2] == "s" else [np.array(d, dtype=float).reshape(-1, 2) for d in op[3]]
@@ -138,12 +173,16 @@ def request_of(step, pre, c):
     return (h[0], h[1]), (h[2], h[3])
 
 
-def invariant(snap, req, pre, shape):
+def invariant(snap, req, pre, shape, extra=None):
     """the property on the real code, after one valid operation.  Returns a list of failed clauses."""
     bad = []
     ps = snap["ps"]
-    scale = max(abs(snap["b0"]), abs(snap["b1"]), abs(snap["p0"]), abs(snap["p1"]), snap["w"], snap["h"], ps)
-    tol = TOL * scale
+    # tolerances: relative to the EXTENTS (widths, pixel size) plus the rounding of the coordinates themselves (1e-12 of
+    # their magnitude, i.e. ~1e4 ulp) - not 1e-9 of the offset, which at |b0| ~ 1e6 would be 1% of a 0.1 pixel
+    scale_abs = max(abs(snap["b0"]), abs(snap["b1"]), abs(snap["p0"]), abs(snap["p1"]))
+    scale_ext = max(snap["w"], snap["h"], ps, abs(snap["b1"] - snap["b0"]), abs(snap["p1"] - snap["p0"]))
+    scale = max(scale_abs, scale_ext)
+    tol = TOL * scale_ext + 1e-12 * scale_abs
     steptol = TOL * ps + 1e-13 * scale
     for ax, lo, hi, ext, n, mesh, r in (("birth", "b0", "b1", "w", "rx", "mb", req[0]), ("pers", "p0", "p1", "h", "ry", "mp", req[1])):
         cnt = snap[n]
@@ -174,6 +213,10 @@ def invariant(snap, req, pre, shape):
                 bad.append("%s: range moved (%r..%r -> %r..%r) though the operation did not touch it" % (ax, pre[lo], pre[hi], snap[lo], snap[hi]))
     if shape is not None and shape != [snap["rx"], snap["ry"]]:
         bad.append("transform output has shape %r, reported resolution is %r" % (shape, (snap["rx"], snap["ry"])))
+    for name, sh in (extra or {}).items():
+        shapes = sh if (isinstance(sh, list) and sh and isinstance(sh[0], list)) else [sh]
+        if any(x != [snap["rx"], snap["ry"]] for x in shapes):
+            bad.append("transform(%s) returns %r, reported resolution is %r" % (name.replace("_", " "), sh, (snap["rx"], snap["ry"])))
     return bad
 
 
@@ -214,8 +257,9 @@ def run_real(case, with_shape=True):
             break
         snap = snapshot(obj)
         shape = real_shape(obj) if with_shape else None
-        inv = invariant(snap, request_of(st, pre, c), pre, shape) if valid else []
-        recs.append({"snap": snap, "pre": pre, "shape": shape, "inv": inv, "valid": valid})
+        extra = extra_shapes(obj) if with_shape and valid else {}
+        inv = invariant(snap, request_of(st, pre, c), pre, shape, extra) if valid else []
+        recs.append({"snap": snap, "pre": pre, "shape": shape, "extra_shapes": extra, "inv": inv, "valid": valid})
         pre = snap
     return recs
 
@@ -224,7 +268,7 @@ def run_real(case, with_shape=True):
 
 def enc_op(op):
     if op[0] == "fit":
-        return "[fit,%s,%s,%s]" % (enc(bool(op[1])), op[2], enc(op[3]))
+        return "[fit,%s,%s,%s]" % (enc(bool(op[1])), op[2], enc(op[3]))       # ints and floats encode to the same rationals
     return "[" + ",".join([op[0]] + [enc(float(x)) for x in op[1:]]) + "]"
 
 
@@ -266,6 +310,7 @@ def float_quotients(step, pre, c):
 def compare_entry(ctx, ent, rec, step, case_ctor):
     """one reached state: model entry vs code record.  Returns (status, text); status in ok|diverged|bad"""
     snap = rec["snap"]
+    ctx.count("states_compared")
     vals = dict(zip(FIELDS, ent[:7]))
     mrx, mry = int(ent[7]), int(ent[8])
     qx, qy = ent[11], ent[12]
@@ -286,6 +331,8 @@ def compare_entry(ctx, ent, rec, step, case_ctor):
                 ctx.count("razor_edge_diverged")
                 diverged = True
                 continue
+            if (not exact) and near:
+                ctx.count("razor_edge_near_but_code_count_not_a_neighbour")
         return "bad", "resolution on %s: code %d, model %d (exact quotient %s, code's float quotient %r)" % (
             ax, cde, m, (float(q) if isinstance(q, Fraction) else q), f)
     for ax, q in (("x", qx), ("y", qy)):
@@ -360,6 +407,16 @@ def correspond(ctx, cases, recs_all):
                     disagreements.append((i, start + len(ans), "model stops after %d states, code reached %d" % (len(ans), len(exp))))
         pending = nxt
     ctx.count("driver_rounds", rounds)
+    n = ctx.counters.get("states_compared", 0)
+    seen, div = ctx.counters.get("razor_edge_seen", 0), ctx.counters.get("razor_edge_diverged", 0)
+    ctx.extra["razor_edge"] = {
+        "states_compared": n, "axis_quotients_within_1e-9_of_an_integer": seen, "diverged_states": div,
+        "diverged_per_state": round(div / n, 5) if n else None,
+        "meaning": "a diverged state is one where the code's FLOAT quotient extent/pixel_size and the exact quotient of the same "
+                   "floats fall on different sides of an integer (within 1e-9 of it), so code and exact model take neighbouring pixel "
+                   "counts; either count is accepted there, the comparison restarts from the code's own state (img.from), and the "
+                   "invariant itself is still evaluated on the code's state. These states are NOT covered by the correspondence of the "
+                   "resolution on that axis."}
     return disagreements
 
 
@@ -372,13 +429,19 @@ DYA_PS = [0.125, 0.25, 0.5, 1.0, 2.0, 0.375, 0.75]
 class HGen:
     def __init__(self, ctx):
         self.r = ctx.rng
-        self.mode = self.r.choice(["dec", "dec", "dya", "unif"])
+        # "decoff": decimal histories far from the origin (|b0| ~ 1e3 .. 1e6 with pixel sizes ~ 0.1: the float quotient
+        # extent/pixel_size is formed from coordinates that carry ~1e-10 of rounding); "int": every argument is
+        # integer-typed (Python ints for ranges and pixel size, int64 arrays for the diagrams)
+        self.mode = self.r.choice(["dec", "dec", "dec", "dya", "dya", "unif", "unif", "decoff", "decoff", "int"])
         self.L = 2.0 ** self.r.choice([-20, -7, -1, 0, 0, 0, 3, 11, 20]) if self.mode == "dya" else 1.0
-        self.ps = 0.2
+        self.off = self.r.choice([-1.0, 1.0]) * self.r.choice([1e3, 1e4, 1e5, 1e6, self.r.uniform(1e3, 1e6)]) if self.mode == "decoff" else 0.0
+        self.ps = 1 if self.mode == "int" else 0.2
 
     def pixel(self):
         r = self.r
-        if self.mode == "dec":
+        if self.mode == "int":
+            return r.choice([1, 1, 2, 3, 5])
+        if self.mode in ("dec", "decoff"):
             v = r.choice(DEC_PS)
         elif self.mode == "dya":
             v = r.choice(DYA_PS) * self.L
@@ -390,8 +453,13 @@ class HGen:
         """a range (lo, hi) of positive extent, ≤ 12 units, commensurable with the current pixel size or not"""
         r = self.r
         ps = self.ps
-        if self.mode == "dec":
+        if self.mode == "int":
+            lo = r.randint(-20, 20)
+            return lo, lo + (r.randint(1, 12) * ps if r.random() < 0.5 else r.randint(1, 30))
+        if self.mode in ("dec", "decoff"):
             lo = r.choice([0.0, 0.0, round(r.uniform(-5, 5), 1), round(r.uniform(-5, 5), 2)])
+            if self.mode == "decoff":
+                lo = round(self.off + round(r.uniform(-5, 5), r.choice([0, 1, 2])), 2)
             if r.random() < 0.5:
                 n = r.randint(1, max(1, min(40, int(12 / ps))))
                 ext = n * ps if r.random() < 0.7 else round(n * ps, 6)
@@ -415,6 +483,8 @@ class HGen:
         ph = pl + (ph - pl if ph > pl else 1.0)
         if ph - pl > 8 * self.L:
             ph = pl + 8 * self.L
+        if self.mode == "int":
+            bl, bh, pl, ph = int(bl), int(bh), int(pl), int(ph)
         nd = r.randint(1, 3)
         dgms = []
         corners = [(bl, pl), (bh, ph)] if r.random() < 0.5 else [(bl, ph), (bh, pl)]
@@ -424,6 +494,8 @@ class HGen:
                 if self.mode == "dya":
                     b = bl + r.randint(0, 8) / 8.0 * (bh - bl)
                     p = pl + r.randint(0, 8) / 8.0 * (ph - pl)
+                elif self.mode == "int":
+                    b, p = r.randint(bl, bh), r.randint(pl, ph)
                 else:
                     b, p = r.uniform(bl, bh), r.uniform(pl, ph)
                 pts.append((b, p))
@@ -447,9 +519,10 @@ class HGen:
             return [k, lo, hi]
         skew = r.random() < 0.7
         dg = self.point_cloud(skew)
+        tail = ["int"] if self.mode == "int" else []
         if len(dg) == 1 and r.random() < 0.6:
-            return ["fit", skew, "s", dg[0]]
-        return ["fit", skew, "c", dg]
+            return ["fit", skew, "s", dg[0]] + tail
+        return ["fit", skew, "c", dg] + tail
 
     def history(self, nmax=12):
         r = self.r
@@ -460,9 +533,11 @@ class HGen:
         elif self.mode == "dya":
             self.ps = 0.25 * self.L
             c["pixel_size"] = self.ps
-        if r.random() < 0.6 or self.mode == "dya":
+        elif self.mode == "int":
+            c["pixel_size"] = self.ps
+        if r.random() < 0.6 or self.mode in ("dya", "int", "decoff"):
             c["birth_range"] = list(self.rng_())
-        if r.random() < 0.6 or self.mode == "dya":
+        if r.random() < 0.6 or self.mode in ("dya", "int", "decoff"):
             c["pers_range"] = list(self.rng_())
         n = r.choice([0, 1, 2, 3]) if r.random() < 0.35 else r.randint(0, nmax)
         return {"ctor": c, "ops": [self.op() for _ in range(n)]}
@@ -591,6 +666,7 @@ def stress_cases(ctx):
 
 def run(ctx):
     common.import_persim()
+    ctx.extra["core_theorems"] = CORE_THEOREMS
     ctx.extra["anchors_digest"] = common.source_digest(
         "persim/images.py", ["__init__", "_n_pixels", "pixel_size", "birth_range", "pers_range", "_create_mesh", "fit",
                              "transform", "fit_transform", "_ensure_iterable"])
@@ -665,17 +741,27 @@ def replay(ctx, rep):
 
 
 MANIFEST = {
-    "text": "Proof: Lean theorems about the state-machine model of PersistenceImager's geometry over any linear ordered floor "
-            "field: for every constructor call with positive extents and every finite history of birth_range/pers_range/pixel_size "
-            "assignments and fits (induction over the operation list) no operation raises and width = resolution*pixel_size = "
-            "range width on both axes with resolution >= 1; the mesh consists of resolution+1 points exactly pixel_size apart from "
-            "range start to range end; every operation's request (assigned range, every fitted point, previous ranges) is covered "
-            "with less than one pixel of excess split evenly; images have the reported resolution; the pre-fix constructor is "
-            "refuted by a decided counterexample. The model is tied to the code on every run by executing the same definitions at "
-            "Rat on the exact rationals of the floats given to the real class, history by history, attribute by attribute.",
+    "text": "Proof (14 theorems, of which 8 core): Lean theorems about the state-machine model of PersistenceImager's geometry over any "
+            "linear ordered floor field: for every constructor call with positive extents and every finite history of "
+            "birth_range/pers_range/pixel_size assignments and fits (induction over the operation list) no operation raises and width = "
+            "resolution*pixel_size = range width on both axes with resolution >= 1; the mesh consists of resolution+1 points exactly "
+            "pixel_size apart from range start to range end; every operation's request (assigned range, every fitted point, previous "
+            "ranges) is covered with less than one pixel of excess split evenly; images have the reported resolution for one diagram, a "
+            "collection, a collection with empty members and an empty input; composed with C04: the meshes of every reachable state "
+            "satisfy the shape condition of C04's model of _transform, which therefore returns an image of exactly the reported "
+            "resolution whose pixel [i][j] is the weighted kernel mass of the square [b0+i*ps, b0+(i+1)*ps] x [p0+j*ps, p0+(j+1)*ps]; the "
+            "pre-fix constructor is refuted by a decided counterexample. The model is tied to the code on every run by executing the "
+            "same definitions at Rat on the exact rationals of the floats given to the real class, history by history, attribute by "
+            "attribute.",
     "note": "Trusted: Lean kernel + Mathlib, axioms propext/Classical.choice/Quot.sound; the correspondence harness; numpy's linspace and "
             "in-place broadcasting as modelled. Theorems are exact-arithmetic: float rounding (where the repaired int(width/ps) defect "
-            "lived) is covered only by the [T] streams, which evaluate the invariant on the real code after every operation and on "
-            "float-stress inputs (n*ps for n <= 400, 0.3/0.1, 0.7/0.1, 1/3, 37.3 with 0.2).",
+            "lived) is covered only by the [T] streams, which evaluate the invariant on the real code after every operation (including the "
+            "shapes of transform on an empty array, [], a collection and a collection with an empty member) and on float-stress inputs "
+            "(n*ps for n <= 400, 0.3/0.1, 0.7/0.1, 1/3, 37.3 with 0.2; decimal histories at offsets up to 1e6; integer-typed arguments). "
+            "Razor-edge rule: where the code's float quotient extent/pixel_size and the exact quotient of the same floats fall on different "
+            "sides of an integer (within 1e-9), code and exact model take neighbouring pixel counts; either is accepted and the comparison "
+            "restarts from the code's own state. This happens in about 8% of the compared states of a quick run (the exact figures are in "
+            "the evidence under coverage.razor_edge); on those states the resolution of that axis is NOT covered by the correspondence, "
+            "only by the invariant evaluated on the code's own state.",
     "technique": "Lean 4 invariant proof over operation histories + differential correspondence with the real class + float-stress tests",
 }
